@@ -71,6 +71,8 @@ class Gfa(Lines,GraphOperations,RGFA):
       lst = None
       if isinstance(args[0], str):
         lst = args[0].split("\n")
+        if lst[-1] == "":
+          lst.pop() # the text is empty or ends with a line terminator
       elif isinstance(args[0], list):
         lst = args[0]
       else:
